@@ -1,7 +1,10 @@
 """Behaviour-preserving whole-tree transformations used as global twins by the self-test:
   reformat      - every module re-emitted by ast.unparse (comments dropped, layout and line numbers changed)
   alpha_rename  - every local variable of every function renamed (parameters, globals, attributes untouched)
-The checks must stay silent on both (no rule may depend on layout or on the spelling of a local)."""
+  flip_ifs      - every two-armed if written the other way round
+  document      - every function that has no docstring gets one, and every parameter without a default gets an annotation
+The checks must stay silent on all of them (no rule may depend on layout, on the spelling of a local, on the polarity a
+condition happens to be written in, or on the position of a statement in its body)."""
 import ast
 import builtins
 
@@ -111,6 +114,31 @@ def flip_ifs(repo):
     out = {}
     for f in code_files(repo):
         tree = _IfFlipper().visit(ast.parse(repo.text(f)))
+        ast.fix_missing_locations(tree)
+        out[f] = ast.unparse(tree) + "\n"
+    return out
+
+
+class _Documenter(ast.NodeTransformer):
+    def visit_FunctionDef(self, node):
+        self.generic_visit(node)
+        has_doc = bool(node.body) and isinstance(node.body[0], ast.Expr) and isinstance(node.body[0].value, ast.Constant) \
+            and isinstance(node.body[0].value.value, str)
+        if not has_doc:
+            node.body.insert(0, ast.Expr(value=ast.Constant(value="Documented by the self-test twin: %s." % node.name)))
+        a = node.args
+        n_required = len(a.args) - len(a.defaults)
+        for i, x in enumerate(a.args):
+            if i < n_required and x.annotation is None and x.arg not in ("self", "cls"):
+                x.annotation = ast.Name(id="object", ctx=ast.Load())
+        return node
+
+
+def document(repo):
+    """docstrings and parameter annotations added everywhere (what a documentation pass over the code base does)"""
+    out = {}
+    for f in code_files(repo):
+        tree = _Documenter().visit(ast.parse(repo.text(f)))
         ast.fix_missing_locations(tree)
         out[f] = ast.unparse(tree) + "\n"
     return out
